@@ -125,6 +125,20 @@ def jobs_spec_views(rng, tier, names, quick=14, thorough=150, nmax=8, minn=None,
             fam, xs = stream_for(rng, e, L, fams)
             js.append(SpecEq(e, xs, acc=nm in acc, only_some=nm in only_some))
             js += both_mode_corr(e, xs, ["A"] if nm in acc else [], n=n)[: 2 if fmode else 1]
+        # the definition is over the values DELIVERED by the inner view: the same view chained over an inner view that has
+        # a warm-up of its own must equal the stand-alone inner view followed by the view over Echo fed what that delivered
+        for _ in range(scale_n(tier, 2, 12)):
+            e = gen.gen_unary(rng, ECHO, nmax, [nm])
+            if minn and nm in minn and gen.window_of(e) < minn[nm]:
+                e = mk(nm, ECHO, gen.gen_params(rng, nm, nmax, n=rng.randint(minn[nm], max(minn[nm], nmax))))
+            inner = rng.choice([mk("sma", ECHO, [rng.randint(2, 6)]), mk("ema", ECHO, [rng.randint(2, 5)]), mk("max", ECHO, [rng.randint(2, 4)]),
+                                mk("ss", ECHO, [rng.randint(2, 5)]), mk("rsi", ECHO, [rng.randint(2, 5)])])
+            pos = gen.needs_positive(e)
+            if pos:
+                inner = rng.choice([mk("sma", ECHO, [rng.randint(2, 6)]), mk("ema", ECHO, [rng.randint(2, 5)]), mk("max", ECHO, [rng.randint(2, 4)])])
+            fam, xs = gen.gen_stream(rng, gen.window_of(e) + gen.window_of(inner) + rng.randint(8, 24), gen.window_of(e), positive=True,
+                                     families=["dyadic8", "rampup", "rampdown", "spike", "sawtooth", "decimal"])
+            js.append(Decomp(e, inner, xs))
     return js
 
 
